@@ -61,7 +61,7 @@ struct broker {
         w.on_conn_open = [this](int c, int host) { conns[c] = bconn { c, host }; };
         w.on_conn_end = [this](int c, const char*) { auto it = conns.find(c); if (it != conns.end()) it->second.closed = true; drop_obligations(c); };
         w.on_client_bytes = [this](int c, const std::string& b) { feed(c, b); };
-        w.summarize = [](const std::string& d, int c, int wid) {
+        w.summarize = [](const std::string& d, int c, int wid, bool emit) {
             // one c_pkt event per packet the client hands to the transport, then the list of types
             std::string j = "["; size_t off = 0; bool first = true;
             while (off < d.size()) {
@@ -74,7 +74,7 @@ struct broker {
                 else if (pk.ok && (pk.type == ref::SUBSCRIBE || pk.type == ref::UNSUBSCRIBE)) dig = ref::subscribe_digest(pk.subs, pk.props);
                 else if (pk.ok && pk.type == ref::CONNECT) dig = ref::connect_digest(pk);
                 else if (pk.ok) dig = ref::props_digest(pk.props);
-                jev("c_pkt").i("c", c).i("w", wid).str("type", pk.ok ? ref::type_name(pk.type) : "BAD").i("pid", pk.pid < 0 ? 0 : pk.pid)
+                if (emit) jev("c_pkt").i("c", c).i("w", wid).str("type", pk.ok ? ref::type_name(pk.type) : "BAD").i("pid", pk.pid < 0 ? 0 : pk.pid)
                     .i("qos", pk.qos).i("dup", pk.dup).i("rc", pk.rc < 0 ? 0 : pk.rc).str("msg", msg).str("dig", dig).i("len", (long long) n);
                 off += n;
             }
